@@ -105,11 +105,12 @@ class Ctx:
         ev = dict(property_id=self.pid, tier=self.tier, seed=self.seed, level=self.level, coverage=cov,
                   assumptions=self.assumptions, wall_s=round(time.time() - self.t0, 2),
                   violations=len(self.violations))
-        os.makedirs(os.path.join(ROOT, "evidence"), exist_ok=True)
-        tmp = os.path.join(ROOT, "evidence", self.pid + ".json.tmp")
+        evdir = os.environ.get("VERIF_DEV_EVIDENCE_DIR") or os.path.join(ROOT, "evidence")     # (dev: seed sweeps write elsewhere)
+        os.makedirs(evdir, exist_ok=True)
+        tmp = os.path.join(evdir, self.pid + ".json.tmp")
         with open(tmp, "w") as fh:
             json.dump(ev, fh, indent=1, default=repr)
-        os.replace(tmp, os.path.join(ROOT, "evidence", self.pid + ".json"))
+        os.replace(tmp, os.path.join(evdir, self.pid + ".json"))
         shutil.rmtree(self.work, ignore_errors=True)
         print("%s %s: evaluations=%d distinct_nontrivial=%d states=%d traces=%d violations=%d known=%d wall=%.1fs" % (
             self.pid, self.tier, self.evaluations, len(self.nontrivial), self.states, self.traces_validated,
